@@ -36,9 +36,15 @@ class SigchldHelper:
             self._write_pipe, warn_on_full_buffer=False
         )
         existing_handler = signal.signal(signal.SIGCHLD, SigchldHelper._handler)
+        # The signal mask is inherited from the parent process. If SIGCHLD is
+        # blocked there (e.g., a supervisor that collects its children with
+        # `sigwait()`), it would never be delivered and `wait()` would block
+        # forever.
+        existing_mask = signal.pthread_sigmask(signal.SIG_UNBLOCK, {signal.SIGCHLD})
         try:
             yield
         finally:
+            signal.pthread_sigmask(signal.SIG_SETMASK, existing_mask)
             signal.signal(signal.SIGCHLD, existing_handler)
             signal.set_wakeup_fd(existing_wakeup_fd)
             os.close(self._write_pipe)
